@@ -419,7 +419,10 @@ pub open spec fn free_in(f: SymbolicBDD, v: Sym) -> bool
 {
     match f {
         SymbolicBDD::Var(w) => w == v,
-        SymbolicBDD::False | SymbolicBDD::True | SymbolicBDD::Subtree(_) | SymbolicBDD::Reference(_) => false,
+        SymbolicBDD::False | SymbolicBDD::True | SymbolicBDD::Subtree(_) => false,
+        // an undefined `{name}` reference is treated as possibly mentioning any variable (no definition is ever
+        // installed: assumption A17)
+        SymbolicBDD::Reference(_) => true,
         SymbolicBDD::Not(b) => free_in(*b, v),
         SymbolicBDD::Quantifier(_, vs, b) => !sym_in(vs@, v) && free_in(*b, v),
         SymbolicBDD::CountableConst(_, bs, _) => exists|i: int| 0 <= i < bs@.len() && free_in(#[trigger] bs@[i], v),
@@ -438,8 +441,7 @@ pub open spec fn is_subst(f: SymbolicBDD, x: Sym, rep: SymbolicBDD, g: SymbolicB
 {
     match f {
         SymbolicBDD::Var(v) => if v == x { g == rep } else { g == f },
-        SymbolicBDD::False | SymbolicBDD::True | SymbolicBDD::Subtree(_) => g == f,
-        SymbolicBDD::Reference(_) => true,
+        SymbolicBDD::False | SymbolicBDD::True | SymbolicBDD::Subtree(_) | SymbolicBDD::Reference(_) => g == f,
         SymbolicBDD::Not(b) => g matches SymbolicBDD::Not(b2) && is_subst(*b, x, rep, *b2),
         SymbolicBDD::Quantifier(q, vs, b) => if sym_in(vs@, x) { g == f } else {
             g matches SymbolicBDD::Quantifier(q2, vs2, b2) && q2 == q && vs2@ == vs@ && is_subst(*b, x, rep, *b2) },
@@ -632,7 +634,7 @@ pub proof fn lemma_list_size_pointwise(bs: Seq<SymbolicBDD>, cs: Seq<SymbolicBDD
 
 /// substituting a leaf keeps the size (termination measure of the FixedPoint arm)
 pub proof fn lemma_subst_size(f: SymbolicBDD, x: Sym, rep: SymbolicBDD, g: SymbolicBDD)
-    requires is_subst(f, x, rep, g), ast_size(rep) == 1, ref_free(f)
+    requires is_subst(f, x, rep, g), ast_size(rep) == 1
     ensures ast_size(g) == ast_size(f)
     decreases f
 {
@@ -668,8 +670,8 @@ pub proof fn lemma_subst_size(f: SymbolicBDD, x: Sym, rep: SymbolicBDD, g: Symbo
 
 /// substituting an ROBDD leaf keeps the formula reference-free with well-formed embedded diagrams
 pub proof fn lemma_subst_ok(f: SymbolicBDD, x: Sym, rep: SymbolicBDD, g: SymbolicBDD)
-    requires is_subst(f, x, rep, g), ref_free(f), subtrees_ok(f, false), ref_free(rep), subtrees_ok(rep, false)
-    ensures ref_free(g), subtrees_ok(g, false)
+    requires is_subst(f, x, rep, g), subtrees_ok(f, false), subtrees_ok(rep, false)
+    ensures subtrees_ok(g, false)
     decreases f
 {
     match f {
@@ -682,18 +684,18 @@ pub proof fn lemma_subst_ok(f: SymbolicBDD, x: Sym, rep: SymbolicBDD, g: Symboli
         SymbolicBDD::BinaryOp(op, l, r) => { lemma_subst_ok(*l, x, rep, *g->BinaryOp_1); lemma_subst_ok(*r, x, rep, *g->BinaryOp_2); }
         SymbolicBDD::CountableConst(op, bs, n) => {
             let cs = g->CountableConst_1;
-            assert forall|i: int| 0 <= i < cs@.len() implies ref_free(#[trigger] cs@[i]) && subtrees_ok(cs@[i], false) by {
+            assert forall|i: int| 0 <= i < cs@.len() implies subtrees_ok(#[trigger] cs@[i], false) by {
                 assert(is_subst(bs@[i], x, rep, cs@[i]));
                 lemma_subst_ok(bs@[i], x, rep, cs@[i]);
             }
         }
         SymbolicBDD::CountableVariable(op, l, r) => {
             let l2 = g->CountableVariable_1; let r2 = g->CountableVariable_2;
-            assert forall|i: int| 0 <= i < l2@.len() implies ref_free(#[trigger] l2@[i]) && subtrees_ok(l2@[i], false) by {
+            assert forall|i: int| 0 <= i < l2@.len() implies subtrees_ok(#[trigger] l2@[i], false) by {
                 assert(is_subst(l@[i], x, rep, l2@[i]));
                 lemma_subst_ok(l@[i], x, rep, l2@[i]);
             }
-            assert forall|i: int| 0 <= i < r2@.len() implies ref_free(#[trigger] r2@[i]) && subtrees_ok(r2@[i], false) by {
+            assert forall|i: int| 0 <= i < r2@.len() implies subtrees_ok(#[trigger] r2@[i], false) by {
                 assert(is_subst(r@[i], x, rep, r2@[i]));
                 lemma_subst_ok(r@[i], x, rep, r2@[i]);
             }
@@ -833,7 +835,7 @@ pub proof fn lemma_scount_cong(bs: Seq<SymbolicBDD>, cs: Seq<SymbolicBDD>, i: na
 
 /// substitution lemma: evaluating T with X textually replaced by the diagram y  ==  evaluating T in an environment X := y
 pub proof fn lemma_subst_sem(f: SymbolicBDD, x: Sym, rep: SymbolicBDD, y: BDD, g: SymbolicBDD)
-    requires is_subst(f, x, rep, g), rep is Subtree, *rep->Subtree_0 == y, ref_free(f)
+    requires is_subst(f, x, rep, g), rep is Subtree, *rep->Subtree_0 == y
     ensures subst_sem(f, x, y, g)
     decreases f
 {
@@ -1222,4 +1224,148 @@ pub proof fn lemma_skips(ts: Toks)
         ts.len() >= 2 ==> ts.skip(1)[0] == ts[1] && ts.skip(1).skip(1) =~= ts.skip(2),
         ts.len() >= 3 ==> ts.skip(2)[0] == ts[2] && ts.skip(2).skip(1) =~= ts.skip(3),
 {
+}
+
+// ================================================================ variable lists and the column table (C09, C11)
+
+pub open spec fn distinct_ids(vs: Seq<Sym>) -> bool {
+    forall|i: int, j: int| 0 <= i < vs.len() && 0 <= j < vs.len() && i != j ==> (#[trigger] vs[i]).id != (#[trigger] vs[j]).id
+}
+
+pub open spec fn sorted_ids(vs: Seq<Sym>) -> bool {
+    forall|i: int, j: int| 0 <= i < j < vs.len() ==> (#[trigger] vs[i]).id <= (#[trigger] vs[j]).id
+}
+
+/// the variables among the first k of vs that are free in f, in the same order
+pub open spec fn free_prefix(vs: Seq<Sym>, f: SymbolicBDD, k: int) -> Seq<Sym>
+    decreases k
+{
+    if k <= 0 { Seq::empty() } else {
+        let p = free_prefix(vs, f, k - 1);
+        if free_in(f, vs[k - 1]) { p.push(vs[k - 1]) } else { p }
+    }
+}
+
+/// raw2free maps the id of every variable to its column among the free variables (None if it is bound)
+pub open spec fn table_ok(vs: Seq<Sym>, f: SymbolicBDD, tab: Seq<Option<usize>>, upto: int) -> bool {
+    forall|k: int| 0 <= k < upto ==> (#[trigger] vs[k]).id < tab.len()
+        && tab[vs[k].id as int] == (if free_in(f, vs[k]) { Some(free_prefix(vs, f, k).len() as usize) } else { None::<usize> })
+}
+
+pub proof fn lemma_free_prefix_len(vs: Seq<Sym>, f: SymbolicBDD, k: int)
+    requires 0 <= k <= vs.len()
+    ensures free_prefix(vs, f, k).len() <= k
+    decreases k
+{
+    if k > 0 { lemma_free_prefix_len(vs, f, k - 1); }
+}
+
+/// a tree the parser built contains no embedded diagrams
+pub proof fn lemma_repr_plain(f: SymbolicBDD, a: Ast)
+    requires repr(f, a)
+    ensures subtrees_ok(f, true), subtrees_ok(f, false)
+    decreases f
+{
+    match f {
+        SymbolicBDD::Not(b) => { lemma_repr_plain(*b, *a->Not_0); }
+        SymbolicBDD::Quantifier(_, _, b) => { lemma_repr_plain(*b, *a->Quantifier_2); }
+        SymbolicBDD::FixedPoint(_, _, t) => { lemma_repr_plain(*t, *a->FixedPoint_2); }
+        SymbolicBDD::Ite(c, t, e) => { lemma_repr_plain(*c, *a->Ite_0); lemma_repr_plain(*t, *a->Ite_1); lemma_repr_plain(*e, *a->Ite_2); }
+        SymbolicBDD::BinaryOp(_, l, r) => { lemma_repr_plain(*l, *a->BinaryOp_1); lemma_repr_plain(*r, *a->BinaryOp_2); }
+        SymbolicBDD::CountableConst(_, bs, _) => {
+            let cs = a->CountableConst_1;
+            assert forall|i: int| 0 <= i < bs@.len() implies subtrees_ok(#[trigger] bs@[i], true) && subtrees_ok(bs@[i], false) by {
+                assert(repr_list(bs@, cs));
+                assert(repr(bs@[i], cs[i]));
+                lemma_repr_plain(bs@[i], cs[i]);
+            }
+        }
+        SymbolicBDD::CountableVariable(_, l, r) => {
+            let l2 = a->CountableVariable_1; let r2 = a->CountableVariable_2;
+            assert forall|i: int| 0 <= i < l@.len() implies subtrees_ok(#[trigger] l@[i], true) && subtrees_ok(l@[i], false) by {
+                assert(repr_list(l@, l2));
+                assert(repr(l@[i], l2[i]));
+                lemma_repr_plain(l@[i], l2[i]);
+            }
+            assert forall|i: int| 0 <= i < r@.len() implies subtrees_ok(#[trigger] r@[i], true) && subtrees_ok(r@[i], false) by {
+                assert(repr_list(r@, r2));
+                assert(repr(r@[i], r2[i]));
+                lemma_repr_plain(r@[i], r2[i]);
+            }
+        }
+        _ => {}
+    }
+}
+
+/// the j-th free variable is some vs[m] that is free, and exactly j free variables precede it
+pub proof fn lemma_free_prefix_elem(vs: Seq<Sym>, f: SymbolicBDD, k: int, j: int) -> (m: int)
+    requires 0 <= k <= vs.len(), 0 <= j < free_prefix(vs, f, k).len()
+    ensures 0 <= m < k, free_prefix(vs, f, k)[j] == vs[m], free_in(f, vs[m]), free_prefix(vs, f, m).len() == j
+    decreases k
+{
+    let p = free_prefix(vs, f, k - 1);
+    if free_in(f, vs[k - 1]) && j == p.len() {
+        k - 1
+    } else {
+        lemma_free_prefix_elem(vs, f, k - 1, j)
+    }
+}
+
+/// C11/C10 glue: with the table new_with_env builds, to_free_index(free_vars[j]) == j for every free variable
+pub proof fn lemma_column(vs: Seq<Sym>, f: SymbolicBDD, tab: Seq<Option<usize>>, j: int)
+    requires table_ok(vs, f, tab, vs.len() as int), 0 <= j < free_prefix(vs, f, vs.len() as int).len()
+    ensures
+        free_prefix(vs, f, vs.len() as int)[j].id < tab.len(),
+        tab[free_prefix(vs, f, vs.len() as int)[j].id as int] == Some(j as usize),
+{
+    let m = lemma_free_prefix_elem(vs, f, vs.len() as int, j);
+    lemma_free_prefix_len(vs, f, m);
+    assert(vs[m].id < tab.len());
+}
+
+/// every listed free variable is free, and every free variable of the list is listed (C09)
+pub proof fn lemma_free_prefix_exact(vs: Seq<Sym>, f: SymbolicBDD, k: int, v: Sym)
+    requires 0 <= k <= vs.len()
+    ensures free_prefix(vs, f, k).contains(v) <==> (exists|m: int| 0 <= m < k && vs[m] == v && free_in(f, v))
+    decreases k
+{
+    if k > 0 {
+        lemma_free_prefix_exact(vs, f, k - 1, v);
+        let p = free_prefix(vs, f, k - 1);
+        if free_in(f, vs[k - 1]) {
+            let q = p.push(vs[k - 1]);
+            if q.contains(v) {
+                let i = choose|i: int| 0 <= i < q.len() && q[i] == v;
+                if i < p.len() { assert(p[i] == v); assert(p.contains(v)); } else { assert(vs[k - 1] == v); }
+            }
+            if p.contains(v) {
+                let i = choose|i: int| 0 <= i < p.len() && p[i] == v;
+                assert(q[i] == v);
+            }
+            if vs[k - 1] == v { assert(q[p.len() as int] == v); }
+        }
+    }
+}
+
+// ================================================================ history independence (C13)
+
+/// two diagrams that satisfy the same semantic postcondition for the same arguments are the same diagram, whatever
+/// environment and whatever earlier computations produced them (instance: conjunction; every operation's contract
+/// has this shape: a truth function of the arguments + robdd)
+pub proof fn lemma_result_determined(r1: BDD, r2: BDD, lo: int)
+    requires robdd(r1, lo), robdd(r2, lo), forall|s: Asg| eval(r1, s) == eval(r2, s)
+    ensures r1 == r2
+{
+    assert(sem_eq(r1, r2));
+    lemma_canon(r1, r2, lo);
+}
+
+pub proof fn lemma_and_history_independent(a: BDD, b: BDD, r1: BDD, r2: BDD, lo: int)
+    requires
+        robdd(r1, lo), robdd(r2, lo),
+        forall|s: Asg| #[trigger] eval(r1, s) == (eval(a, s) && eval(b, s)),
+        forall|s: Asg| #[trigger] eval(r2, s) == (eval(a, s) && eval(b, s)),
+    ensures r1 == r2
+{
+    lemma_result_determined(r1, r2, lo);
 }
